@@ -118,6 +118,38 @@ async fn one_config(a: Args, idx: usize, m: refimpl::ss::Method, users: usize) -
     });
     let keys = cfg.ref_client_keys();
     let target = refimpl::addr::Addr::V4([127, 0, 0, 1], tport);
+    // in real time, beside the histories below: a session sends ids 1..5 and falls silent; 26 s later - its datagrams'
+    // timestamps are still acceptable - a verbatim copy of id 3 arrives. Whatever the server does with idle sessions
+    // meanwhile, that id has been accepted before.
+    let idle_session = rng.next_u64();
+    let idle = {
+        let (keys, target, port, mut rng2) = (keys.clone(), target.clone(), d.server_port, Rng::derive(a.seed, 0xC11D, idx as u64));
+        tokio::spawn(async move {
+            let s = UdpSocket::bind("127.0.0.1:0").await.unwrap();
+            let now = std::time::SystemTime::now().duration_since(std::time::UNIX_EPOCH).unwrap().as_secs();
+            let mut copy = Vec::new();
+            for id in 1..=5u64 {
+                let mut payload = idle_session.to_be_bytes().to_vec();
+                payload.extend_from_slice(&id.to_be_bytes());
+                payload.extend_from_slice(&rng2.bytes(20));
+                let p = refimpl::ss::S22UdpPacket { session_id: idle_session, packet_id: id, type_byte: 0, timestamp: now, client_session_id: None, padding: vec![], addr: target.clone(), payload };
+                let w = refimpl::ss::s22_udp_client_encode(m, &keys, &p, &rng2.arr());
+                let _ = s.send_to(&w, ("127.0.0.1", port)).await;
+                if id == 3 {
+                    copy = w;
+                }
+                tokio::time::sleep(Duration::from_millis(5)).await;
+            }
+            tokio::time::sleep(Duration::from_secs(26)).await;
+            let age = std::time::SystemTime::now().duration_since(std::time::UNIX_EPOCH).unwrap().as_secs() - now;
+            let s2 = UdpSocket::bind("127.0.0.1:0").await.unwrap();
+            let _ = s.send_to(&copy, ("127.0.0.1", port)).await;
+            tokio::time::sleep(Duration::from_millis(50)).await;
+            let _ = s2.send_to(&copy, ("127.0.0.1", port)).await;
+            tokio::time::sleep(Duration::from_millis(400)).await;
+            age
+        })
+    };
     let n_hist = if a.thorough { 16 } else { 6 };
     for h in 0..n_hist {
         let s = UdpSocket::bind("127.0.0.1:0").await.unwrap();
@@ -204,6 +236,18 @@ async fn one_config(a: Args, idx: usize, m: refimpl::ss::Method, users: usize) -
         rep.case(&(idx, h), !got.is_empty());
         if idx == 0 && h < 2 {
             rep.sample(json!({"config": cfgname, "history": ids.iter().map(|x| x.to_string()).collect::<Vec<_>>(), "model_accepts": expect.len(), "target_logged": got.len()}));
+        }
+    }
+    if let Ok(age) = idle.await {
+        let times3 = log.lock().unwrap().iter().filter(|(s, id)| *s == idle_session && *id == 3).count();
+        let others = log.lock().unwrap().iter().filter(|(s, id)| *s == idle_session && *id != 3).count();
+        rep.evaluations += 1;
+        rep.mon("copies_presented_after_26_s_of_silence", 2);
+        rep.case(&(idx, "idle-copy"), others > 0);
+        if others == 0 {
+            rep.inconclusive(format!("{cfgname}: the idle session's datagrams were not relayed at all"));
+        } else if times3 > 1 {
+            rep.violation(format!("C11|nodes|{}|copy-of-an-accepted-packet-id-delivered-after-the-session-had-been-idle", cfgname), format!("{cfgname}: packet id 3 of a session reached the target {times3} times: a verbatim copy presented after {age} s of silence (its timestamp still acceptable) was relayed again"), json!({"seed": a.seed, "config": cfgname, "age_s": age, "times_id_3_reached_the_target": times3}));
         }
     }
     if !server.alive() {
